@@ -431,6 +431,59 @@ def inline_attribute_copies(tree: ast.Module) -> int:
     return n_inlined
 
 
+def expand_conditional_statements(tree: ast.Module) -> int:
+    """Canonicalisation: inside functions, `t = A if c else B` and `return A if c else B` are re-written as the
+    if/else statement they abbreviate (nested conditional expressions in the else arm become an elif chain).  Whether
+    an author spells a two-way choice as a conditional expression or as a statement is not a property of the program;
+    path-condition rules then see the test as a branch either way.  Locations are kept."""
+    n_done = 0
+
+    def split(st: ast.stmt) -> Optional[ast.If]:
+        if isinstance(st, ast.Assign) and isinstance(st.value, ast.IfExp):
+            mk = lambda v: ast.copy_location(ast.Assign(targets=[copy.deepcopy(t) for t in st.targets], value=v, type_comment=None), v)  # noqa: E731
+        elif isinstance(st, ast.AnnAssign) and isinstance(st.value, ast.IfExp) and st.simple:
+            mk = lambda v: ast.copy_location(ast.AnnAssign(target=copy.deepcopy(st.target), annotation=copy.deepcopy(st.annotation), value=v, simple=st.simple), v)  # noqa: E731
+        elif isinstance(st, ast.Return) and isinstance(st.value, ast.IfExp):
+            mk = lambda v: ast.copy_location(ast.Return(value=v), v)  # noqa: E731
+        else:
+            return None
+        e = st.value
+        a, b = mk(e.body), mk(e.orelse)
+        node = ast.If(test=e.test, body=[split(a) or a], orelse=[split(b) or b])
+        ast.copy_location(node, st)
+        return node
+
+    def unroll(st: ast.stmt) -> Optional[ast.stmt]:
+        """`yield from (elt for t in it if c)`  ->  `for t in it: if c: yield elt`  (one generator, not async)."""
+        if not (isinstance(st, ast.Expr) and isinstance(st.value, ast.YieldFrom) and isinstance(st.value.value, ast.GeneratorExp)):
+            return None
+        ge = st.value.value
+        if len(ge.generators) != 1 or ge.generators[0].is_async:
+            return None
+        g = ge.generators[0]
+        inner: ast.stmt = ast.copy_location(ast.Expr(value=ast.copy_location(ast.Yield(value=ge.elt), ge.elt)), ge.elt)
+        for c in reversed(g.ifs):
+            inner = ast.copy_location(ast.If(test=c, body=[inner], orelse=[]), c)
+        loop = ast.For(target=g.target, iter=g.iter, body=[inner], orelse=[], type_comment=None)
+        return ast.copy_location(loop, st)
+
+    for fn in [n for n in ast.walk(tree) if isinstance(n, (ast.FunctionDef, ast.AsyncFunctionDef))]:
+        for n in ast.walk(fn):
+            for fld in ("body", "orelse", "finalbody"):
+                blk = getattr(n, fld, None)
+                if not isinstance(blk, list):
+                    continue
+                for i, st in enumerate(blk):
+                    if isinstance(st, ast.stmt):
+                        new = split(st) or unroll(st)
+                        if new is not None:
+                            blk[i] = new
+                            n_done += 1
+    if n_done:
+        ast.fix_missing_locations(tree)
+    return n_done
+
+
 def set_parents(tree: ast.AST, mod: Optional[ModuleInfo] = None) -> None:
     for n in ast.walk(tree):
         for ch in ast.iter_child_nodes(n):
@@ -517,6 +570,8 @@ class Program:
                     raise AnalysisError(f"cannot parse {f}: {e}") from None
             if not os.environ.get("ODCVERIF_NO_INLINE"):
                 inline_attribute_copies(tree)
+            if not os.environ.get("ODCVERIF_NO_INLINE") and not os.environ.get("ODCVERIF_NO_IFEXP"):
+                expand_conditional_statements(tree)
             mi = ModuleInfo(name, f, source, tree)
             set_parents(tree, mi)
             self.modules[name] = mi
@@ -998,6 +1053,28 @@ class Program:
                     out.append((n, r))
         # nested functions and lambdas are part of the function for reachability purposes
         return out
+
+    def closure_nodes(self, fi: "FuncInfo", node: Optional[ast.AST] = None, depth: int = 2, private_only: bool = True) -> Iterator[Tuple["FuncInfo", ast.AST]]:
+        """Every node under `node` (default: the whole body of `fi`) and, transitively up to `depth` calls deep, every node of
+        the package functions called from there - by default only private ones (leading underscore, nested, or methods called
+        on self): the parts a function may have been split into.  Yields (function the node belongs to, node)."""
+        seen: Set[str] = {fi.qual}
+
+        def rec(f: "FuncInfo", root: ast.AST, d: int) -> Iterator[Tuple["FuncInfo", ast.AST]]:
+            it = walk_own(root) if root is f.node else ast.walk(root)
+            for n in it:
+                yield f, n
+                if d > 0 and isinstance(n, ast.Call):
+                    for t in self.resolve_call(n, f):
+                        if t.qual in seen or t.is_stub or isinstance(t.node, ast.Lambda):
+                            continue
+                        priv = t.name.startswith("_") and not t.name.startswith("__") or t.parent is not None
+                        if private_only and not priv:
+                            continue
+                        seen.add(t.qual)
+                        yield from rec(t, t.node, d - 1)
+
+        yield from rec(fi, node if node is not None else fi.node, depth)
 
     def reachable(self, roots: Iterable[FuncInfo], by_name: bool = False, limit: int = 400) -> List[FuncInfo]:
         seen: Dict[str, FuncInfo] = {}
